@@ -143,3 +143,50 @@ func H_C17_placement() {
 	}
 	vReach("end")
 }
+
+// H_C17_cells_in_any_order_within_row: the cells of one <row> may be written in any column order.
+//
+//symgo:harness prop=C17 kernel=K2-row-cell-order
+//symgo:redirect encoding/xml.Unmarshal vStubUnmarshal
+//symgo:desc one or two <row> elements (r attribute present); the first row holds 2..3 cells at distinct symbolic columns A..E in the order given (any order, so the right-most cell need not be last); the second row, if any, holds one cell at a symbolic column: every cell value sits at its address and the grid is wide enough for all of them
+func H_C17_cells_in_any_order_within_row() {
+	n := vAnyIntIn(2, 3)
+	var ws worksheetXML
+	row := rowXML{R: 1}
+	cols := make([]int, n)
+	for k := 0; k < n; k++ {
+		cl := vAnyByte()
+		vAssume(cl >= 'A' && cl <= 'E')
+		cols[k] = int(cl - 'A')
+		for j := 0; j < k; j++ {
+			vAssume(cols[j] != cols[k])
+		}
+		row.Cells = append(row.Cells, cellXML{R: string([]byte{cl, '1'}), T: "str", V: "v" + string(rune('0'+k))})
+	}
+	ws.SheetData.Rows = append(ws.SheetData.Rows, row)
+	second := -1
+	if vAnyIntIn(0, 1) == 1 {
+		cl := vAnyByte()
+		vAssume(cl >= 'A' && cl <= 'E')
+		second = int(cl - 'A')
+		ws.SheetData.Rows = append(ws.SheetData.Rows, rowXML{R: 2, Cells: []cellXML{{R: string([]byte{cl, '2'}), T: "str", V: "w"}}})
+	}
+	vWS = ws
+	var data []byte
+	if !vIsSymbolic() {
+		data = vMarshalWS(ws)
+	}
+	sheet, err := (&Reader{}).parseWorksheet(data, "S", 0)
+	vAssert("no-error", err == nil && sheet != nil)
+	for k := 0; k < n; k++ {
+		c := sheet.Cell(0, cols[k])
+		vAssert("cell-exists-at-address", c != nil)
+		vAssert("value-at-address", c.Value == "v"+string(rune('0'+k)))
+	}
+	if second >= 0 {
+		c := sheet.Cell(1, second)
+		vAssert("second-row-cell-exists", c != nil)
+		vAssert("second-row-value", c.Value == "w")
+	}
+	vReach("end")
+}
